@@ -1,51 +1,49 @@
 package diff
 
 import (
-	"encoding/json"
 	"fmt"
-	"math/rand"
 	"os"
+	"strings"
 	"testing"
-	"time"
 
 	"verif/lib/host"
 	"verif/lib/prog"
-	"verif/lib/splicegen"
 )
 
-func TestExplore(t *testing.T) {
-	if os.Getenv("DIFF_EXPLORE") == "" {
-		t.Skip("exploration helper")
+// TestProbe runs the Cadence program in file $DIFF_PROBE (script, or transaction when it
+// contains "transaction") on the three engines and prints what each shows. Steps can be
+// separated by lines "-----"; a step starting with "contract NAME" on the first line is a deployment to 0x1.
+func TestProbe(t *testing.T) {
+	p := os.Getenv("DIFF_PROBE")
+	if p == "" {
+		t.Skip("helper")
 	}
-	t0 := time.Now()
-	c := splicegen.Load()
-	fmt.Println("load", time.Since(t0))
-	r := rand.New(rand.NewSource(1))
-	t0 = time.Now()
-	classes := map[string]int{}
-	for i := 0; i < 300; i++ {
-		h, info := c.Next(r)
-		_ = info
-		for _, e := range []host.Engine{host.Interp, host.VM} {
-			g := host.NewGauge(false)
-			g.CompLimit = 200000
-			g.MemLimit = 1 << 28
-			rs, _ := prog.Run(nil, h, host.Options{Engine: e, Gauge: g})
-			for _, x := range rs {
-				ci := host.Classify(x)
-				classes[e.String()+":"+ci.Class+":"+ci.Root]++
-				if (ci.Class == "internal" || ci.Class == "panic") && classes["shown:"+ci.Root+e.String()] < 1 {
-					classes["shown:"+ci.Root+e.String()]++
-					fmt.Println("=====", e, ci.Class, ci.Root, h.Origin)
-					fmt.Println(h.String())
-					fmt.Println(x.Err, x.Panic)
-				}
-			}
+	b, err := os.ReadFile(p)
+	if err != nil {
+		t.Fatal(err)
+	}
+	var hist prog.History
+	for _, part := range strings.Split(string(b), "\n-----\n") {
+		part = strings.TrimSpace(part)
+		switch {
+		case strings.HasPrefix(part, "//deploy "):
+			nl := strings.Index(part, "\n")
+			hist.Steps = append(hist.Steps, prog.Step{Kind: prog.Deploy, Name: strings.TrimSpace(part[9:nl]), Source: part[nl+1:], Signers: []uint64{1}})
+		case strings.Contains(part, "transaction"):
+			hist.Steps = append(hist.Steps, prog.Step{Kind: prog.Tx, Source: part, Signers: []uint64{1}})
+		default:
+			hist.Steps = append(hist.Steps, prog.Step{Kind: prog.Script, Source: part})
 		}
 	}
-	fmt.Println("run", time.Since(t0))
-	b, _ := json.MarshalIndent(c.Stats(), "", " ")
-	fmt.Println(string(b))
-	b, _ = json.MarshalIndent(classes, "", " ")
-	fmt.Println(string(b))
+	engines := []host.Engine{host.Interp, host.VM}
+	if host.HasPeephole() {
+		engines = append(engines, host.VMPeephole)
+	}
+	for _, e := range engines {
+		tr := observe(hist, e, false)
+		for i, s := range tr.Steps {
+			fmt.Printf("[%s] step %d: class=%s root=%s value=%s logs=%q events=%q limited=%v\n    err=%s\n", e, i, s.Class, s.Root, strings.TrimSpace(s.Value), s.Logs, s.Events, s.Limited, firstLine(s.Err, 700))
+		}
+		fmt.Printf("[%s] ledger %s\n", e, tr.Ledger[:12])
+	}
 }
